@@ -106,6 +106,9 @@ type clEnv struct {
 	srvConn   net.Conn
 	handles   []*clHandle
 	hash      bitcoin.Hash32
+	prevHash  bitcoin.Hash32
+	hasPrev   bool
+	sessions  int
 	umu       sync.Mutex // the universes are used from call goroutines too
 }
 
@@ -212,6 +215,8 @@ func (e *clEnv) newSession() {
 	if err != nil {
 		panic(harnessErr("session: " + err.Error()))
 	}
+	e.prevHash, e.hasPrev = e.hash, e.sessions > 0
+	e.sessions++
 	e.hash = h
 	e.c.VerifResetConnection(cl)
 }
@@ -261,6 +266,14 @@ func (e *clEnv) acceptMsg(variant, pd, ut, mc int64) *client.Message {
 		m.Key = sessKey.PublicKey()
 		sign(sessKey, e.hash)
 		m.PushDataCount += 3
+	case 8: // replay: the genuine accept of the PREVIOUS connection (its session key, signed for its hash)
+		ph := dsha([]byte("no previous session"))
+		if e.hasPrev {
+			ph = e.prevHash
+		}
+		kp, _ := bitcoin.NextKey(e.serverKey, ph)
+		m.Key = kp.PublicKey()
+		sign(kp, ph)
 	default:
 		panic(harnessErr("accept variant"))
 	}
